@@ -580,11 +580,12 @@ class Stats:
         self.q_unknown = 0
         self.solver_s = 0.0
         self.max_depth = 0
+        self.nontrivial_paths = 0
         self.notes = {}
         self.labels = {}
 
     def merge(self, o):
-        for k in ('paths', 'aborted', 'decisions', 'forks', 'checks', 'discharged', 'sym_checks',
+        for k in ('paths', 'nontrivial_paths', 'aborted', 'decisions', 'forks', 'checks', 'discharged', 'sym_checks',
                   'queries', 'q_sat', 'q_unsat', 'q_unknown'):
             setattr(self, k, getattr(self, k) + getattr(o, k))
         self.solver_s += o.solver_s
@@ -616,6 +617,7 @@ class SymEnv:
         self.log = []             # free-form observation log (goes into samples)
         self.violations = []
         self.floor_cache = {}
+        self.solver_decided = 0
 
     # -- solver --
     def _check(self, *extra):
@@ -801,6 +803,7 @@ class SymEnv:
             return False
         z = zof(cond)
         st.sym_checks += 1
+        self.solver_decided += 1
         if self._check(z3.Not(z)) == z3.unsat:
             st.discharged += 1
             return True
@@ -1004,6 +1007,8 @@ def explore(scenario, params, *, max_paths=None, max_violations=3, deadline=None
                 break
         finally:
             CUR = None
+            if env.solver_decided or any(not t.startswith('choose:') for _, t in env.trace):
+                stats.nontrivial_paths += 1
             stats.decisions += len(env.trace)
             stats.max_depth = max(stats.max_depth, len(env.trace))
         pending.extend(env.pending)
